@@ -26,6 +26,8 @@ pub struct TypedInfo {
     pub json_after: Value,
     /// from_value(json) -> to_value / to_mt_message
     pub json_roundtrip: Result<(Value, String), String>,
+    /// the message rebuilt from its JSON equals the parsed message as a typed value ({:?} compared)
+    pub json_roundtrip_equal: bool,
 }
 
 /// rule code of a backward-compatible ValidationError (its text is compared elsewhere)
@@ -54,14 +56,18 @@ fn typed_info<T: SwiftMessageBody + serde::de::DeserializeOwned>(text: &str) -> 
         let vr = m.validate();
         let full_again = errs(m.fields.validate_network_rules(false));
         let json_after = serde_json::to_value(&m).unwrap_or(Value::Null);
+        let mut json_roundtrip_equal = true;
         let json_roundtrip = match serde_json::from_value::<SwiftMessage<T>>(json.clone()) {
-            Ok(m2) => Ok((serde_json::to_value(&m2).unwrap_or(Value::Null), m2.to_mt_message())),
+            Ok(m2) => {
+                json_roundtrip_equal = format!("{:?}", m2.fields) == format!("{:?}", m.fields);
+                Ok((serde_json::to_value(&m2).unwrap_or(Value::Null), m2.to_mt_message()))
+            }
             Err(e) => Err(e.to_string()),
         };
         TypedInfo {
             json, mt, full, first, full_again,
             msg_validate: (vr.is_valid, vr.errors.iter().map(rule_of).collect()),
-            json_after, json_roundtrip,
+            json_after, json_roundtrip, json_roundtrip_equal,
         }
     })
     .map_err(|p| format!("panic:{p}"))
